@@ -185,6 +185,65 @@ theorem expansion_nan_witness (f : Fmt) (prec : Nat) (hew : 2 ≤ f.ew) (hp : 2 
   simp [mpf2expansion, mpf2expansionG, MpfT.isInf, fnan, finf, fninf] at h ⊢
   exact h
 
+/-- `RSpec` is satisfiable in every format: rounding toward zero (`truncR`, keep the `p` leading bits)
+meets it, so `expansion_value` is not vacuous.  (That the real `mpf2float` meets it is C15's theorem;
+C13 checks its clauses on the real function by search.) -/
+theorem rspec_satisfiable (f : Fmt) (hew : 2 ≤ f.ew) (hp : 1 ≤ f.p) (hpm : f.p ≤ 2 ^ (f.ew - 1)) : RSpec f (truncR f) :=
+  truncR_spec f hew hp hpm
+
+/-! ## multiwords -/
+
+/- Full statement (FALSE of the code as written, see `multiword_zero_window_witness`):
+     for every normalised mpf x with emin ≤ exp, exp + bc ≤ maxexp, bc ≤ prec:
+       Σ mpf2multiword(dtype, x) = x   and   multiword2mpf(mpf2multiword(dtype, x)) = x
+   An all-zero window of `min(bc, p)` mantissa bits converts to 0.0, which the loop takes for exponent
+   underflow (`break`: the remaining bits are dropped); and when the window after it has leading zeros,
+   `offset -= bl1` steps back by less than the window width and bits are emitted twice. -/
+
+/-- **multiword_value_partial / multiword_roundtrip**: for every format, every normalised mpf
+`x = (-1)^s·man·2^exp` (odd `man`) inside the exponent range of the format, with `bc ≤ prec`, chunk
+width `p` (`None` → the format's precision) and `max_length=None`, and a mantissa WITHOUT an all-zero
+window of `min(bc,p)` bits: `mpf2multiword` terminates, its words are finite floats whose exact sum is `x`
+(`gridOf f s man exp` in units of `2^emin`), and `multiword2mpf` returns exactly the tuple `x`. -/
+theorem multiword_value_partial (f : Fmt) (prec : Nat) (hew : 2 ≤ f.ew) (hp : 1 ≤ f.p) (hpm : f.p ≤ 2 ^ (f.ew - 1))
+    (hprec : f.p ≤ prec ∨ f = binary64)
+    (s : Bool) (man : Nat) (exp bc : Int) (p? : Option Nat)
+    (hp1 : 1 ≤ p?.getD f.p) (hpf : p?.getD f.p ≤ f.p) (hpp : p?.getD f.p ≤ prec)
+    (hodd : man % 2 = 1) (hE : f.emin ≤ exp) (htop : exp + bitLen man ≤ maxexp f) (hbl : bitLen man ≤ prec)
+    (hnz : NoZeroWindow man (min (bitLen man) (p?.getD f.p))) :
+    ∃ ws, mpf2multiword f prec ⟨sgnNat s, man, exp, bc⟩ p? none = .ok ws ∧ ws ≠ [] ∧
+      (∀ w ∈ ws, GoodWord f w) ∧ gsum f ws = gridOf f s man exp ∧
+      multiword2mpf f prec ws = .ok ⟨sgnNat s, man, exp, bitLen man⟩ := by
+  obtain ⟨ws, h1, h2, h3, h4, h5⟩ := multiword_spec f prec hew hp hpm s man exp bc p? hp1 hpf hpp hodd hE htop hbl hnz
+  refine ⟨ws, h1, h2, h3, h4, ?_⟩
+  show expansion2mpf f prec ws = _
+  rw [e2m_value f prec hew hp hprec ws h2 h3 h5, h4, canonI_gridOf f s man exp hodd hE]
+
+/-- Negation witnesses (replayed on the real code).  (1) `2^106 + 1` in float64: the second window is all
+zero and the result is `[2^106]`, the `+1` is lost; (2) float32 with `p=3`: a zero window followed by a
+window with leading zeros emits `64.0` twice; in both cases the hypothesis `NoZeroWindow` fails. -/
+theorem multiword_zero_window_witness :
+    mpf2multiword binary64 200 ⟨0, 2 ^ 106 + 1, 0, 107⟩ none none = .ok [0x4690000000000000] ∧
+    ¬ NoZeroWindow (2 ^ 106 + 1) 53 ∧
+    (∃ pre post, mpf2multiword binary32 64 ⟨0, 867027644117196405, -45, 60⟩ (some 3) none
+        = .ok (pre ++ [0x42800000, 0x42800000] ++ post)) := by
+  refine ⟨by decide +kernel, ?_, ⟨[0x46c00000], [0x40000000, 0x3ec00000, 0x3d000000, 0x3ac00000, 0x38600000,
+      0x35800000, 0x32c00000, 0x30800000, 0x2f600000, 0x2d800000, 0x2c600000, 0x2a200000], by decide +kernel⟩⟩
+  intro h
+  exact h 1 (by decide +kernel) (by decide +kernel)
+
+/-- Negation witness: infinities and NaN become the empty list, on which `multiword2mpf` raises IndexError. -/
+theorem multiword_nonfinite_witness :
+    mpf2multiword binary32 53 finf none none = .ok [] ∧ mpf2multiword binary32 53 fninf none none = .ok [] ∧
+    mpf2multiword binary32 53 fnan none none = .ok [] ∧ multiword2mpf binary32 53 [] = .error .indexError := by
+  decide +kernel
+
+/-- Negation witness: `max_length=1` fails its own assertion `len(result) <= max_length` (two words). -/
+theorem multiword_maxlength1_witness :
+    mpf2multiword binary32 53 ⟨0, 3, 0, 2⟩ none (some 1) = .error .assertionError ∧
+    mpf2multiword binary64 53 ⟨1, 1, -3, 1⟩ none (some 1) = .error .assertionError := by
+  decide +kernel
+
 /-! ## Non-vacuity: concrete instances satisfying the hypotheses -/
 
 example : 2 ≤ binary16.ew ∧ 3 ≤ binary16.p ∧ binary16.p ≤ 2 ^ (binary16.ew - 1) := by decide
@@ -202,5 +261,15 @@ example : GoodWord binary16 0x6400 ∧ GoodWord binary16 0x3c00 ∧ GoodWord bin
   refine ⟨⟨by decide, by decide⟩, ⟨by decide, by decide⟩, ⟨by decide, by decide⟩, ?_, by decide +kernel⟩
   unfold FitsAll FitsAll FitsAll FitsAll
   refine ⟨?_, ?_, ?_, trivial⟩ <;> decide +kernel
+
+/-- a float64 multiword instance: `x = (2^52 + 1)·2^53 + 3` (107 bits, two words, no zero window) -/
+example : (2 ^ 105 + 2 ^ 53 + 3) % 2 = 1 ∧ bitLen (2 ^ 105 + 2 ^ 53 + 3) = 106 ∧ NoZeroWindow (2 ^ 105 + 2 ^ 53 + 3) 53 ∧
+    mpf2multiword binary64 200 ⟨0, 2 ^ 105 + 2 ^ 53 + 3, 0, 106⟩ none none = .ok [0x4680000000000001, 0x4008000000000000] := by
+  refine ⟨by decide, by decide +kernel, ?_, by decide +kernel⟩
+  intro k hk
+  have hb : bitLen (2 ^ 105 + 2 ^ 53 + 3) = 106 := by decide +kernel
+  rw [hb] at hk
+  have hall : ∀ j, j ≤ 53 → (2 ^ 105 + 2 ^ 53 + 3) / 2 ^ j % 2 ^ 53 ≠ 0 := by decide +kernel
+  exact hall k (by omega)
 
 end FAVerif.Props.C13
